@@ -55,22 +55,56 @@ var srvKinds = []srvKind{
 	{"wrong-direction", "tools/list", `{}`},
 	{"method-with-line-breaks", "verif/line\nbreak\r\n sep x", `{"text":"a\nb"}`},
 	{"sampling-8KiB-params", "sampling/createMessage", ""}, // params filled in by srvRequest
+	{"method-hostile-text", "", `{"k":"v"}`},                // method filled in by srvRequest: "verif/h|" + a hostile payload class
+}
+
+// srvPayloadID / srvPayloadMethod: the hostile payload class (payloadspace.go) the n-th server-issued request carries
+// in its string id (every 7th request) / in its method (kind method-hostile-text).
+func srvPayloadID(n int) hpay {
+	sm := smallHostile()
+	return sm[(n/7)%len(sm)]
+}
+
+func srvPayloadMethod(n int) hpay {
+	sm := smallHostile()
+	return sm[(n/len(srvKinds))%len(sm)]
 }
 
 var blob8k = strings.Repeat("0123456789abcdef", 512)
 
-// srvID is the JSON-RPC id (raw JSON) of the n-th server-issued request: mostly numbers, every 7th a string.
+// srvID is the JSON-RPC id (raw JSON) of the n-th server-issued request: mostly numbers, every 7th a string that
+// carries a hostile payload class.
 func srvID(n int) string {
 	if n%7 == 3 {
-		return fmt.Sprintf(`"s-%d"`, n)
+		return jstr(fmt.Sprintf("s-%d|%s", n, srvPayloadID(n).S))
 	}
 	return strconv.Itoa(500000 + n)
+}
+
+// idKey is the decoded form of a raw JSON id (what a peer compares: the value, not its spelling).
+func idKey(raw json.RawMessage) string {
+	dec := json.NewDecoder(bytes.NewReader(raw))
+	dec.UseNumber()
+	var v interface{}
+	if dec.Decode(&v) != nil {
+		return "raw:" + string(raw)
+	}
+	switch x := v.(type) {
+	case string:
+		return "s:" + x
+	case json.Number:
+		return "n:" + x.String()
+	}
+	return "raw:" + canonID(raw)
 }
 
 // srvRequest renders the n-th (n >= 1) server-issued request; the kind cycles through srvKinds.
 func srvRequest(n int) (id string, kind srvKind, msg string) {
 	kind = srvKinds[n%len(srvKinds)]
 	id = srvID(n)
+	if kind.Name == "method-hostile-text" {
+		kind.Method = "verif/h|" + srvPayloadMethod(n).S
+	}
 	m, _ := json.Marshal(kind.Method)
 	params := kind.Params
 	if kind.Name == "sampling-8KiB-params" {
@@ -350,6 +384,22 @@ type cliWant struct {
 	notifOK    int             // roots/list_changed notifications whose send returned nil
 	notifMaybe int             // ... whose send returned an error (0 or 1 copies each)
 	handshake  bool            // initialize + notifications/initialized were sent by Initialize
+	content    map[string]map[string]string // nonce -> free-text fields of the request as the application passed them (after one trip through encoding/json)
+	fam        map[string]string            // nonce -> payload family
+	roots      string                       // canonical JSON of the roots the provider returns
+}
+
+// addContent records the free text the application put into a request.
+func (w *cliWant) addContent(nonce, fam string, fields map[string]string) {
+	w.mu.Lock()
+	if w.content == nil {
+		w.content, w.fam = map[string]map[string]string{}, map[string]string{}
+	}
+	for k, v := range fields {
+		fields[k] = rt(v)
+	}
+	w.content[nonce], w.fam[nonce] = fields, fam
+	w.mu.Unlock()
 }
 
 func (w *cliWant) addReq(nonce string) {
@@ -390,9 +440,43 @@ func reqNonce(params json.RawMessage) string {
 		return n
 	}
 	if strings.HasPrefix(p.URI, "res://") {
-		return strings.TrimPrefix(p.URI, "res://")
+		n := strings.TrimPrefix(p.URI, "res://")
+		if i := strings.IndexByte(n, '/'); i >= 0 {
+			n = n[:i]
+		}
+		return n
+	}
+	if i := strings.IndexByte(p.Cursor, '|'); i >= 0 {
+		return p.Cursor[:i]
 	}
 	return p.Cursor
+}
+
+// reqFields extracts the free-text fields of a request's params.
+func reqFields(params json.RawMessage) map[string]string {
+	var p struct {
+		Name      *string                `json:"name"`
+		Arguments map[string]interface{} `json:"arguments"`
+		URI       *string                `json:"uri"`
+		Cursor    *string                `json:"cursor"`
+	}
+	out := map[string]string{}
+	if json.Unmarshal(params, &p) != nil {
+		return out
+	}
+	if p.Name != nil {
+		out["name"] = *p.Name
+	}
+	if p.URI != nil {
+		out["uri"] = *p.URI
+	}
+	if p.Cursor != nil {
+		out["cursor"] = *p.Cursor
+	}
+	if v, ok := p.Arguments["p"].(string); ok {
+		out["p"] = v
+	}
+	return out
 }
 
 type cliVerdict struct {
@@ -410,10 +494,21 @@ func judgeClientSide(r *vh.Run, scen string, stdio bool, frames []string, want *
 	gotInit, gotInitialized, gotRootsChanged := 0, 0, 0
 	ansKinds := map[string]int{}
 	kindOf := map[string]string{}
+	nOf := map[string]int{}
 	for n := 1; n <= issued; n++ {
 		id, k, _ := srvRequest(n)
-		kindOf[id] = k.Name
+		kindOf[idKey(json.RawMessage(id))] = k.Name
+		nOf[idKey(json.RawMessage(id))] = n
 	}
+	type echo struct {
+		n    int
+		msg  string
+		kind string
+		f    string
+	}
+	var echoes []echo
+	embedsMethod := false
+	contentOK, rootsOK := map[string]int{}, 0
 	bad := func(sym, what string, i int, f string) {
 		v.Bad++
 		r.Violation(fmt.Sprintf("C09|%s|%s", scen, sym), fmt.Sprintf("%s: frame %d %s", scen, i, what), map[string]interface{}{"frame_index": i, "frame": clip(f), "len": len(f)})
@@ -454,6 +549,25 @@ func judgeClientSide(r *vh.Run, scen string, stdio bool, frames []string, want *
 				gotInit++
 			} else if n := reqNonce(m["params"]); n != "" {
 				gotReq[n]++
+				// the free text of the request, byte for byte after JSON decoding
+				want.mu.Lock()
+				exp, fam := want.content[n], want.fam[n]
+				want.mu.Unlock()
+				if exp != nil {
+					gotF := reqFields(m["params"])
+					same := true
+					for k, ev := range exp {
+						if gotF[k] != ev {
+							same = false
+							v.Bad++
+							r.Violation(fmt.Sprintf("C09|%s|request-content-differs|%s|%s", scen, k, fam), fmt.Sprintf("%s: frame %d is request %s, but its %s is not what the application passed (payload family %s)", scen, i, n, k, fam),
+								map[string]interface{}{"frame_index": i, "field": k, "passed": clip(fmt.Sprintf("%q", ev)), "recovered": clip(fmt.Sprintf("%q", gotF[k])), "frame": clip(f)})
+						}
+					}
+					if same {
+						contentOK[fam]++
+					}
+				}
 			} else {
 				bad("unknown-frame", "is a request the application never sent", i, f)
 			}
@@ -468,7 +582,7 @@ func judgeClientSide(r *vh.Run, scen string, stdio bool, frames []string, want *
 				bad("unknown-frame", "is a notification the application never sent", i, f)
 			}
 		case hasID && (hasRes != hasErr):
-			cid := canonID(id)
+			cid := idKey(id)
 			if hasRes {
 				v.ResultAnswers++
 			} else {
@@ -477,10 +591,61 @@ func judgeClientSide(r *vh.Run, scen string, stdio bool, frames []string, want *
 			gotAns[cid]++
 			if k, ok := kindOf[cid]; ok {
 				ansKinds[k]++
+				switch {
+				case hasRes && strings.HasPrefix(k, "roots/list") && want.roots != "":
+					var res struct {
+						Roots json.RawMessage `json:"roots"`
+					}
+					json.Unmarshal(m["result"], &res)
+					rv, err := decodeStrict(string(res.Roots))
+					if err != nil || canonOf(rv) != want.roots {
+						v.Bad++
+						r.Violation(fmt.Sprintf("C09|%s|roots-answer-content-differs", scen), fmt.Sprintf("%s: frame %d answers roots/list, but the roots are not the ones the provider returned", scen, i),
+							map[string]interface{}{"frame_index": i, "provided": clip(want.roots), "frame": clip(f)})
+					} else {
+						rootsOK++
+					}
+				case hasErr && (k == "unknown-method" || k == "method-hostile-text" || k == "method-with-line-breaks"):
+					var e struct {
+						Message string `json:"message"`
+					}
+					json.Unmarshal(m["error"], &e)
+					if k == "unknown-method" {
+						if strings.Contains(e.Message, "verif/unknown") {
+							embedsMethod = true
+						}
+					} else {
+						echoes = append(echoes, echo{nOf[cid], e.Message, k, f})
+					}
+				}
 			}
 		default:
 			bad("unknown-frame", "is neither request, notification nor answer", i, f)
 		}
+	}
+	// error answers that name the method they refuse (only if this client is seen to do that for a harmless name)
+	methodOK := 0
+	if embedsMethod {
+		for _, e := range echoes {
+			_, k, _ := srvRequest(e.n)
+			fam := "line"
+			if e.kind == "method-hostile-text" {
+				fam = srvPayloadMethod(e.n).Fam
+			}
+			if strings.Contains(e.msg, rt(k.Method)) {
+				methodOK++
+				continue
+			}
+			v.Bad++
+			r.Violation(fmt.Sprintf("C09|%s|error-answer-method-differs|%s", scen, fam), fmt.Sprintf("%s: the error answer to a server-issued request names a method that is not the one refused (payload family %s)", scen, fam),
+				map[string]interface{}{"method": clip(fmt.Sprintf("%q", rt(k.Method))), "error_message": clip(fmt.Sprintf("%q", e.msg)), "frame": clip(e.f)})
+		}
+	}
+	r.Count("cli_roots_answers_with_equal_content|"+scen, int64(rootsOK))
+	r.Count("cli_error_answers_naming_the_refused_method_exactly|"+scen, int64(methodOK))
+	for fam, n := range contentOK {
+		r.Count("cli_requests_with_equal_free_text|"+scen+"|"+fam, int64(n))
+		r.Distinct(fmt.Sprintf("%s|request-content|%s", scen, fam))
 	}
 	// the multiset
 	missing, dup, foreign, openMissing := 0, 0, 0, 0
@@ -606,33 +771,90 @@ type appClient interface {
 
 // hostileRoots: the roots/list answer itself carries line breaks, separators and a long name.
 func hostileRoots() mcp.RootsProvider {
-	return mcp.NewDefaultRootsProvider(
-		mcp.Root{URI: "file:///x", Name: strings.Repeat("n", 3000)},
-		mcp.Root{URI: "file:///a\nb", Name: "line\nbreak\r\n sep end"},
-	)
+	return mcp.NewDefaultRootsProvider(hostileRootList()...)
 }
 
-// runSenders: conc application goroutines, each a seeded sequence of iters operations.
+// hostileRootList: besides the first two, one root per hostile payload class (payloadspace.go) of at most 64 bytes
+// (every class of the formatting family, every third of the others), the payload in the name and in the URI.
+func hostileRootList() []mcp.Root {
+	roots := []mcp.Root{
+		{URI: "file:///x", Name: strings.Repeat("n", 3000)},
+		{URI: "file:///a\nb", Name: "line\nbreak\r\n sep end"},
+	}
+	k := 0
+	for _, p := range smallHostile() {
+		if len(p.S) > 64 {
+			continue
+		}
+		if k++; k%3 == 0 || p.Fam == "pct" {
+			roots = append(roots, mcp.Root{URI: "file:///" + p.S, Name: p.S})
+		}
+	}
+	return roots
+}
+
+// rootsCanon: the canonical JSON of the roots as encoding/json delivers them.
+func rootsCanon() string {
+	b, err := json.Marshal(hostileRootList())
+	if err != nil {
+		return ""
+	}
+	v, err := decodeStrict(string(b))
+	if err != nil {
+		return ""
+	}
+	return canonOf(v)
+}
+
+// senderPools: the payloads the application goroutines put into their requests. small: the classes of at most
+// 4300 bytes (line breaks, separators, every hostile class of payloadspace.go below that size); all: the large ones
+// too (stdio only).
+func senderPools(rng *rand.Rand, big bool) (small, all []hpay) {
+	for _, p := range payloads(rng) {
+		hp := hpay{Class: p.Class, Fam: "frame", S: p.S}
+		if len(p.S) <= 4300 {
+			small = append(small, hp)
+		}
+		if big || len(p.S) <= 4300 {
+			all = append(all, hp)
+		}
+	}
+	for _, p := range hostile() {
+		if len(p.S) <= 4300 {
+			small = append(small, p)
+		}
+		if big || len(p.S) <= 4300 {
+			all = append(all, p)
+		}
+	}
+	return small, all
+}
+
+// runSenders: conc application goroutines, each a seeded sequence of iters operations. Every request carries a
+// payload class in each of its free-text fields (tool / prompt name, arguments, resource URI, cursor).
 func runSenders(ctx context.Context, r *vh.Run, cl appClient, label string, conc, iters int, big bool, want *cliWant) {
 	var wg sync.WaitGroup
 	for g := 0; g < conc; g++ {
 		rng := r.Rand(fmt.Sprintf("%s-sender-%d", label, g))
-		pl := payloads(rng)
-		if !big {
-			pl = pl[:5] // HTTP bodies: the small classes (line breaks, separators)
-		}
+		small, all := senderPools(rng, big)
 		wg.Add(1)
 		go func(g int, rng *rand.Rand) {
 			defer wg.Done()
 			for i := 0; i < iters; i++ {
 				cctx, cc := context.WithTimeout(ctx, 60*time.Second)
 				nonce := nextNonce("cs")
-				var p struct{ Class, S string }
+				var p hpay
 				if rng.Intn(10) == 0 {
-					p = pl[rng.Intn(len(pl))] // any class, the large ones included
+					p = all[rng.Intn(len(all))] // any class, the large ones included
 				} else {
-					p = pl[rng.Intn(5)]
+					p = small[rng.Intn(len(small))]
 				}
+				q := small[rng.Intn(len(small))] // the class in the name / URI / cursor
+				if len(q.S) > 256 {
+					q = small[0]
+				}
+				r.SetAdd("cli_payload_classes", p.Class)
+				r.SetAdd("cli_payload_classes", q.Class)
 				switch op := rng.Intn(10); {
 				case op < 3: // a burst of notifications: no answer to wait for, back-to-back writes
 					for k := 0; k < 6; k++ {
@@ -648,27 +870,31 @@ func runSenders(ctx context.Context, r *vh.Run, cl appClient, label string, conc
 				case op < 7:
 					want.addReq(nonce)
 					rq := &mcp.CallToolRequest{}
-					rq.Params.Name = "any"
+					rq.Params.Name = "t|" + q.S
 					rq.Params.Arguments = map[string]interface{}{"nonce": nonce, "p": p.S}
+					want.addContent(nonce, p.Fam, map[string]string{"name": rq.Params.Name, "p": p.S})
 					_, err := cl.CallTool(cctx, rq)
 					want.reqResult(nonce, err)
 				case op == 7:
 					want.addReq(nonce)
 					rq := &mcp.ListToolsRequest{}
-					rq.Params.Cursor = mcp.Cursor(nonce)
+					rq.Params.Cursor = mcp.Cursor(nonce + "|" + q.S)
+					want.addContent(nonce, q.Fam, map[string]string{"cursor": string(rq.Params.Cursor)})
 					_, err := cl.ListTools(cctx, rq)
 					want.reqResult(nonce, err)
 				case op == 8:
 					want.addReq(nonce)
 					rq := &mcp.GetPromptRequest{}
-					rq.Params.Name = "p"
+					rq.Params.Name = "p|" + q.S
 					rq.Params.Arguments = map[string]string{"nonce": nonce, "p": p.S}
+					want.addContent(nonce, p.Fam, map[string]string{"name": rq.Params.Name, "p": p.S})
 					_, err := cl.GetPrompt(cctx, rq)
 					want.reqResult(nonce, err)
 				default:
 					want.addReq(nonce)
 					rq := &mcp.ReadResourceRequest{}
-					rq.Params.URI = "res://" + nonce
+					rq.Params.URI = "res://" + nonce + "/" + q.S
+					want.addContent(nonce, q.Fam, map[string]string{"uri": rq.Params.URI})
 					_, err := cl.ReadResource(cctx, rq)
 					want.reqResult(nonce, err)
 				}
@@ -700,7 +926,7 @@ func clientStdin(r *vh.Run, conc, iters, budget int) map[string]interface{} {
 		return map[string]interface{}{"scenario": scen, "senders": conc, "not_run": "initialize failed"}
 	}
 	cl.SetRootsProvider(hostileRoots())
-	want := &cliWant{reqs: map[string]bool{}, handshake: true}
+	want := &cliWant{reqs: map[string]bool{}, handshake: true, roots: rootsCanon()}
 	runSenders(ctx, r, cl, fmt.Sprintf("c09-stdin-%d", conc), conc, iters, true, want)
 	// everything the application wanted to send is out; wait until the flood has been answered
 	drq := &mcp.CallToolRequest{}
@@ -754,6 +980,9 @@ func countIssuedFromAnswers(frames []string) int {
 			}
 			s := strings.Trim(canonID(h.ID), `"`)
 			s = strings.TrimPrefix(s, "s-")
+			if i := strings.IndexByte(s, '|'); i >= 0 {
+				s = s[:i]
+			}
 			n, err := strconv.Atoi(s)
 			if err != nil {
 				continue
@@ -961,7 +1190,7 @@ func clientHTTP(r *vh.Run, legacy bool, conc, iters, budget int) map[string]inte
 		return map[string]interface{}{"scenario": scen, "senders": conc, "not_run": "initialize failed"}
 	}
 	cl.SetRootsProvider(hostileRoots())
-	want := &cliWant{reqs: map[string]bool{}, handshake: true}
+	want := &cliWant{reqs: map[string]bool{}, handshake: true, roots: rootsCanon()}
 	runSenders(ctx, r, cl, fmt.Sprintf("c09-http-%v-%d", legacy, conc), conc, iters, false, want)
 	drq := &mcp.CallToolRequest{}
 	drq.Params.Name = "c09-drain"
